@@ -11,7 +11,15 @@ Search: the property itself on the real code, typed payloads included: w1 = writ
 the in-memory structure after the save, write(read(w1)) == w1.  Inputs: skeleton-level mutants of a sample of fixtures
 and payload-level mutants of ALL fixtures (same-length key substitutions by terminology terms, boundary values on
 every scalar leaf the parser read, length-changing splices with the enclosing lengths kept valid, structure-level leaf
-mutation written by the real writer); only accepted files are judged.
+mutation written by the real writer); in front of them two seed-independent streams on the smallest PSD and PSB
+fixtures: every signature field x every signature some reader accepts (set regenerated from the validators, *_SIGNATURES
+attributes and signature comparisons of the source), and every 1- / 2-byte length-prefixed field (Pascal strings: layer
+names, resource names, ...) x the boundary lengths of its width (0, 1, 2^k-1, 2^k, max-1, max) with the enclosing length
+fields re-computed, with and without the tagged blocks the writer's fallback rules consult (AST); only accepted files are
+judged.
+Tie of writer rules the model shares with the reader or leaves out (harness/extract_c02.py -> Generated/WriterTies.lean):
+the width of a tagged block's length field observed per direction for every signature x key x version (tb_width_tied),
+LayerRecord._legacy_name observed for every length 0..300 with / without luni (legacy_name_tied).
 """
 from __future__ import annotations
 
@@ -28,6 +36,7 @@ from concurrent.futures import ProcessPoolExecutor
 import core
 import codec_common as cc
 import extract_c01
+import extract_c02
 import lenient_common as lc
 import skel
 from core import hx, unhx
@@ -162,7 +171,7 @@ def index_fixture(arg):
     try:
         data = fx_bytes(name)
         res, sm = lc.trace_parse(data)
-        sites = _thin(lc.payload_sites(sm), cap)
+        sites = _thin(lc.payload_sites(sm) + lc.short_len_sites_with_drops(sm), cap)
         n_all = len(sm.keys), len(sm.scalars), len(sm.containers), len(sm.opaque)
         leafs = _thin(lc.leaf_sites(data), cap) if res[0] == "ok" else []
         sm.data = None
@@ -248,9 +257,16 @@ def run(ctx: core.Run):
     import logging
     logging.disable(logging.CRITICAL)
     ctx.regenerate(extract_c01.gen_codec)
+    gen_w = ctx.regenerate(extract_c02.gen_tb_widths)
     ctx.prove(["PsdVerif.Props.C02"])
     quick = ctx.quick
     rng = ctx.rng
+    # the accepted signatures, from the source (validators, *_SIGNATURES attributes, comparisons with a signature);
+    # set before the pool forks: the structural maps mark exactly these as signature fields
+    sig_alts, sig_where = lc.signature_alternatives()
+    lc.SIGNATURES = sig_alts
+    consulted = lc.writer_consulted_keys()
+    lc.CONSULTED = frozenset(consulted.values())
 
     # ------------------------------------------------------------------ fixtures and their structural maps
     allfx = cc.fixtures()
@@ -263,9 +279,21 @@ def run(ctx: core.Run):
         per_fx = lambda size: 640 if size <= 300_000 else 160
     names = [rel(f) for f in chosen]
     sizes = {rel(f): f.stat().st_size for f in chosen}
+    # signature / short-length streams: the smallest fixtures of BOTH versions (the 8-byte length fields, section
+    # lengths and big keys exist in a PSB only), whatever the random choice above took
+    n_each = 6 if quick else 20
+    by_ext = {".psd": [], ".psb": []}
+    for f in allfx:
+        if f.stat().st_size <= (60_000 if quick else 300_000):
+            by_ext.setdefault(f.suffix.lower(), []).append(f)
+    det_names = []
+    for ext in sorted(by_ext):
+        det_names += [rel(f) for f in by_ext[ext][:n_each]]
+    extra_names = [n for n in det_names if n not in names]
+    sizes.update({n: (fx_root() / n).stat().st_size for n in extra_names})
     pool = ProcessPoolExecutor(WORKERS)
     maps = {}
-    for name, status, sm in pool.map(map_fixture, names, chunksize=2):
+    for name, status, sm in pool.map(map_fixture, names + extra_names, chunksize=2):
         sm.data = fx_bytes(name)
         maps[name] = sm
         ctx.hist("fixture_parse", status)
@@ -299,6 +327,37 @@ def run(ctx: core.Run):
     for name in names:                                   # the fixtures themselves
         add(kind="fixture", corr=sizes[name] <= CORR_MAX_BYTES and quick, fixture=name, edits=[],
             rec={"op": "none", "label": "fixture", "fixture": name})
+    # ------------------------------------------------------------------ signature fields x every accepted signature;
+    # short (1- / 2-byte) length fields x the boundary lengths of their width, enclosing lengths re-computed, with
+    # and without the blocks the writer's fallback rules consult
+    n_sig = n_plen = 0
+    plen_feats = set()
+    for name in det_names:
+        sm = maps[name]
+        k = 0
+        for _, rec in lc.sig_mutants(sm, sig_alts, cap=None if sizes[name] <= 60_000 else 3):
+            rec["fixture"] = name
+            k += 1
+            n_sig += 1
+            add(kind="mutant", corr=rec["label"] in lc.SKELETON and sizes[name] <= CORR_MAX_BYTES and k <= 60,
+                fixture=name, edits=rec["edits"], rec=rec)
+        sites = lc._thin_sites(lc.short_len_sites_with_drops(sm), 3 if quick else 8)
+        for site in sites:
+            plen_feats.add(site["feat"])
+            k = 0
+            for how, edits in lc.plen_variants(site, drop=site["drop"]):
+                k += 1
+                n_plen += 1
+                add(kind="mutant", corr=site["label"] in lc.SKELETON and sizes[name] <= CORR_MAX_BYTES and k <= 12,
+                    fixture=name, edits=edits,
+                    rec={"op": "short-len", "label": site["label"], "site": site["site"], "how": how, "off": site["off"],
+                         "fixture": name, "edits": edits})
+    ctx.extra["signature_stream"] = {"accepted_signatures": [x.decode("latin1") for x in sig_alts], "found_in": sig_where,
+                                     "fixtures": det_names, "mutants": n_sig}
+    ctx.extra["short_length_stream"] = {"boundary_lengths": {"1": lc.boundary_lengths(1), "2": lc.boundary_lengths(2)},
+                                        "reader_statements": sorted(str(f[2]) for f in plen_feats), "mutants": n_plen,
+                                        "blocks_the_writer_consults": {k: v.decode("latin1") for k, v in consulted.items()}}
+    ctx.extra["writer_ties"] = {k: gen_w[k] for k in ("rows", "n_differ", "reader_writer_differ", "legacy_rows", "legacy_fallback_from")}
     donors_small = [(n, maps[n].data, maps[n]) for n in names if sizes[n] <= 300_000]
     corr_budget = 4000 if quick else 9000
     per_fx_corr = max(8, corr_budget // max(1, len(names)))
@@ -350,6 +409,19 @@ def run(ctx: core.Run):
     n_det = 0
     for name, site in chosen_sites:
         base = fx_bytes(name)
+        if site["k"] == "plen":
+            # a short length-prefixed field of a reader statement seen in ANY fixture (uuids, path names, Pascal-string
+            # resources, ...): the boundary lengths of its width, enclosing lengths re-computed
+            if name in det_names:
+                continue
+            plen_feats.add(site["feat"])
+            for how, edits in lc.plen_variants(site, drop=[tuple(d) for d in site.get("drop", [])]):
+                n_det += 1
+                n_plen += 1
+                add(kind="payload", corr=False, fixture=name, edits=edits,
+                    rec={"op": "short-len", "label": site["label"], "site": site["site"], "how": how, "off": site["off"],
+                         "fixture": name, "edits": edits})
+            continue
         if site["k"] == "key":
             vs = lc.key_variants(site, base, terms, rng, 6 if quick else 16)
         elif site["k"] == "num":
@@ -362,7 +434,7 @@ def run(ctx: core.Run):
                 rec={"op": "payload-" + site["k"], "label": site["label"], "how": how, "off": site["off"],
                      "site": site["feat"][1], "fixture": name, "edits": edits})
     # random payload sites / variants (all from ctx.rng)
-    flat = [(n, s_) for n in pnames for s_ in per_sites.get(n, ()) if s_["k"] != "opaque"]
+    flat = [(n, s_) for n in pnames for s_ in per_sites.get(n, ()) if s_["k"] not in ("opaque", "plen")]
     n_rand_payload = 1500 if quick else 12000
     for name, site in (rng.sample(flat, min(len(flat), n_rand_payload)) if flat else []):
         base = fx_bytes(name)
@@ -405,6 +477,7 @@ def run(ctx: core.Run):
         "leaf_features": len({l["feat"] for v in per_leafs.values() for l in v}), "leaf_sites_chosen": len(chosen_leafs),
         "leafset_tasks": n_leafset, "terminology_terms_by_length": {str(k): len(v) for k, v in sorted(terms.items())},
     }
+    ctx.extra["short_length_stream"].update(mutants=n_plen, reader_statements=sorted(str(f[2]) for f in plen_feats))
     t_gen = time.time() - t0
 
     # ------------------------------------------------------------------ run the oracle (and the raw parse) in the pool
@@ -544,6 +617,8 @@ def run(ctx: core.Run):
         "PSD.write (bytes, count, refreshed object) on structure-mutated fixtures",
         "harness/skel.py (object graph -> typed skeleton), harness/extract_c01.py (validator / enum tables regenerated)",
         "harness/lenient_common.py: the recording io.BytesIO used to obtain the structural map (only decides WHERE to mutate)",
+        "harness/extract_c02.py: probes of the live TaggedBlock.read / TaggedBlock.write (length width) and of "
+        "LayerRecord._legacy_name (tables of Generated/WriterTies.lean)",
     ]
     ctx.assumptions += [
         "payload classes are opaque bytes in the model; re-save stability inside payloads (descriptors, effects, ...) is "
@@ -559,7 +634,15 @@ def run(ctx: core.Run):
         "substitutions inside structural fields, multi-byte substitutions, two fields at once, truncation at block "
         "boundaries (+-2), splices of length blocks between files, duplication/deletion of blocks, exhaustively +-1/+-2/x2/max "
         "on every 2/4/8-byte numeric field of a skeleton class and a truncation at every block boundary (small fixtures), and structure-level "
-        "leaf mutations (parse, set one scalar leaf to an extreme, write). 70 %% of the in-place mutations hit skeleton "
+        "leaf mutations (parse, set one scalar leaf to an extreme, write). SEED-INDEPENDENT, on the %d smallest PSD and %d "
+        "smallest PSB fixtures: (s) every signature field of the map (tagged blocks at document, record and Lr16/Lr32 level, "
+        "image resources, record blend signatures, payload signatures) overwritten with every OTHER signature some reader "
+        "accepts (%s; regenerated from validators, *_SIGNATURES attributes and signature comparisons); (l) every 1- / 2-byte "
+        "length field followed by exactly that many raw bytes (Pascal strings: layer names, resource names, ...; a few per "
+        "reader statement and fixture) set to the boundary lengths of its width (one byte: %s) with filler text, for every "
+        "padding unit consistent with the bytes read, all enclosing length fields re-computed, and the same again with the "
+        "`%s` block of the same record deleted (keys the writer's fallback rules test, from the AST). "
+        "70 %% of the in-place mutations hit skeleton "
         "classes, 30 %% payload classes. PAYLOAD LEVEL (all fixtures up to %d bytes are mapped; payload reads are in the "
         "map with the reader statement - class.function:line and its caller - that consumed them): for every reader "
         "statement seen in some fixture, %d sites (smallest files first), each under deterministic boundary variants: "
@@ -573,7 +656,10 @@ def run(ctx: core.Run):
         "OUTPUT taken as the input file. Then random sites and values from the run's rng. Only accepted files count. "
         "Failing inputs are shrunk to the fewest mutated bytes (ddmin over the changed offsets) and, per signature, the "
         "recipe touching the fewest bytes is reported."
-        % (ctx.extra["structural_map"]["fields"], len(maps), payload_max, k_site, k_leaf))
+        % (ctx.extra["structural_map"]["fields"], len(maps),
+           sum(1 for n in det_names if n.endswith(".psd")), sum(1 for n in det_names if n.endswith(".psb")),
+           " ".join(x.decode("latin1") for x in sig_alts), lc.boundary_lengths(1),
+           "/".join(v.decode("latin1") for v in consulted.values()) or "?", payload_max, k_site, k_leaf))
     ctx.model_coverage = {
         "modelled_and_proved": sorted(lc.SKELETON),
         "opaque (searched on the real code only)": "every tagged-block / image-resource payload class",
@@ -592,6 +678,12 @@ def run(ctx: core.Run):
         "Reader repairs of this round moved the model (LayerAndMask.bodyDec gates on end_pos, tagged_blocks never None, "
         "LayerInfo() for a body declaring no layers); with them every (F) clause of C01's WF is unreachable from the reader "
         "(dec_never_returns_* theorems).",
+        "tb_width_tied: the model has ONE width function tbLenW(version, key) for reader and writer and ignores the signature; "
+        "the real TaggedBlock.read and TaggedBlock.write are probed per direction for every accepted signature x every Tag "
+        "value x both versions on every run and must both equal it (%d rows, %d where reader and writer differ). "
+        "legacy_name_tied / legacy_name_identity_on_read: LayerRecord.encT writes r.name itself; _legacy_name (observed for "
+        "every length 0..300 with / without luni) is the identity up to 255 bytes, i.e. on every name LayerRecord.dec returns."
+        % (gen_w["rows"] or 0, gen_w["n_differ"] or 0),
         "Stated in DESIGN, not proved: idempotence inside opaque payload classes (searched only). A size-based version of "
         "dec_encodable (input shorter than 2 GiB => writable) is not proved; LenFits is stated instead.",
     ]
